@@ -23,6 +23,16 @@ Proof. intros x H. apply lf_wrap_s_small; [lia|]. change (2 ^ (32 - 1)) with 214
 Lemma lf_wrap_s_8_small : forall x, -128 <= x < 128 -> lf_wrap_s 8 x = x.
 Proof. intros x H. apply lf_wrap_s_small; [lia|]. change (2 ^ (8 - 1)) with 128. lia. Qed.
 
+Lemma lf_wrap_s_64_small : forall x, -9223372036854775808 <= x < 9223372036854775808 -> lf_wrap_s 64 x = x.
+Proof. intros x H. apply lf_wrap_s_small; [lia|]. change (2 ^ (64 - 1)) with 9223372036854775808. lia. Qed.
+
+(* QIntC::to_T on a value T holds *)
+Lemma lf_checked_in : forall lo hi x, lo <= x <= hi -> lf_checked lo hi x = x.
+Proof.
+  intros lo hi x H. unfold lf_checked.
+  destruct (Z.leb_spec lo x); destruct (Z.leb_spec x hi); try lia. reflexivity.
+Qed.
+
 Lemma lf_wrap_u_32_small : forall x, 0 <= x < 4294967296 -> lf_wrap_u 32 x = x.
 Proof. intros x H. apply lf_wrap_u_small. change (2 ^ 32) with 4294967296. lia. Qed.
 
